@@ -6,11 +6,13 @@
 // runtime: it sends commands and sync requests to the value lane and reads -- or for a while does NOT read -- the lane's
 // output, so that the lane-to-runtime channel fills up and writes stay pending.
 // Checked on EVERY sequence up to VERIF_BX_DEPTH over {one command, a burst of 450 commands without reading, a sync
-// request, drain the output}, each followed by a final drain.
+// request, drain the outputs, a command-lane command whose handler sends an ad hoc command, a burst of 100 of those}, each
+// followed by a final drain.
 // Contract: the events read from the lane carry strictly increasing values (commands are numbered) and, once the agent is
 // quiescent and the output drained, the last one is the last value commanded (C01); every sync request is answered by its
 // sync event and synced marker, in request order (C03); the lane's lifecycle event fires exactly once per command and never
-// for a sync or a completed write (C06).
+// for a sync or a completed write (C06); every command a handler sends to another agent is forwarded on the agent's command
+// channel, however slowly that channel is read (C14).
 use super::*;
 use futures::FutureExt;
 use swimos_agent_protocol::LaneResponse;
@@ -21,8 +23,13 @@ enum Op {
     Burst,
     Sync,
     Drain,
+    // a command to the agent's command lane whose handler sends one command to another agent (ad hoc command)
+    AdHoc,
+    // 100 of them while nobody reads the agent's outgoing command channel (several times its capacity)
+    AdHocBurst,
 }
 const BURST: i32 = 450;
+const ADHOC_BURST: usize = 100;
 
 async fn settle() {
     for _ in 0..16 {
@@ -85,11 +92,22 @@ async fn drain(receiver: &mut ValueLaneReceiver, m: &mut Model, step: usize) -> 
 }
 
 async fn run_sequence(seq: &[Op]) -> Result<(), String> {
-    let context = Box::<TestAgentContext>::default();
-    let (task, TestContext { mut test_event_rx, http_request_rx: _http_request_rx, mut lc_event_rx, val_lane_io, map_lane_io: _map_lane_io, cmd_lane_io: _cmd_lane_io, http_lane_tx: _http_lane_tx, .. }) =
+    let (cmd_tx, cmd_rx) = oneshot::channel();
+    let context = Box::new(TestAgentContext::new(cmd_tx));
+    let (task, TestContext { mut test_event_rx, http_request_rx: _http_request_rx, mut lc_event_rx, val_lane_io, map_lane_io: _map_lane_io, cmd_lane_io, http_lane_tx: _http_lane_tx, .. }) =
         init_agent(context).await;
     let task = tokio::spawn(task);
     let (mut sender, mut receiver) = val_lane_io;
+    let (mut cmd_sender, _cmd_receiver) = cmd_lane_io;
+    let mut out_commands = CommandReceiver::new(
+        tokio::time::timeout(Duration::from_secs(5), cmd_rx).await.map_err(|_| "the agent did not open its command channel".to_string())?.map_err(|_| "command channel dropped".to_string())?,
+        CommandMessageDecoder::default(),
+    );
+    let mut adhoc_sent = 0usize;
+    let mut adhoc_seen = 0usize;
+    let mut next_adhoc = 1i32;
+    let mut cmd_lane_events = 0usize;
+    let mut cmd_lane_commands = 0usize;
     let mut m = Model { next: 1, last_cmd: 0, last_seen: 0, syncs_sent: vec![], syncs_answered: 0, half_sync: None, lane_events: 0 };
     let mut commands = 0usize;
     let mut all: Vec<Op> = seq.to_vec();
@@ -120,8 +138,42 @@ async fn run_sequence(seq: &[Op]) -> Result<(), String> {
                     ow => return Err(format!("step {step}: the agent did not take the sync request: {:?}", ow)),
                 }
             }
+            Op::AdHoc | Op::AdHocBurst => {
+                let n = if let Op::AdHoc = op { 1 } else { ADHOC_BURST };
+                for _ in 0..n {
+                    // values congruent to 1 mod 3 make the lane's handler send one ad hoc command
+                    let v = next_adhoc;
+                    next_adhoc += 3;
+                    cmd_sender.command(v).await;
+                    adhoc_sent += 1;
+                    cmd_lane_commands += 1;
+                    match tokio::time::timeout(Duration::from_secs(5), test_event_rx.next()).await {
+                        Ok(Some(TestEvent::Cmd { body })) if body == v => {}
+                        ow => return Err(format!("step {step}: the agent did not take command {v} on its command lane: {:?}", ow)),
+                    }
+                }
+            }
             Op::Drain => {
                 settle().await;
+                // the consumer of the agent's outgoing commands catches up
+                let mut empty = 0;
+                while empty < 6 {
+                    match out_commands.next().now_or_never() {
+                        Some(Some(Ok(_))) => {
+                            empty = 0;
+                            adhoc_seen += 1;
+                        }
+                        Some(Some(Err(e))) => return Err(format!("step {step}: bad frame on the agent's command channel: {e}")),
+                        Some(None) => return Err(format!("step {step}: the agent closed its command channel")),
+                        None => {
+                            empty += 1;
+                            settle().await;
+                        }
+                    }
+                }
+                if adhoc_seen != adhoc_sent {
+                    return Err(format!("step {step}: the agent is quiescent and its command channel drained; its handlers sent {adhoc_sent} commands to other agents, {adhoc_seen} were forwarded"));
+                }
                 drain(&mut receiver, &mut m, step).await?;
                 // quiescent and drained
                 if m.last_seen != m.last_cmd {
@@ -143,6 +195,7 @@ async fn run_sequence(seq: &[Op]) -> Result<(), String> {
                     match ev {
                         LifecycleEvent::Init | LifecycleEvent::Start => {}
                         LifecycleEvent::Lane(name) if name == VAL_LANE => m.lane_events += 1,
+                        LifecycleEvent::Lane(name) if name == CMD_LANE => cmd_lane_events += 1,
                         ow => return Err(format!("step {step}: unexpected lifecycle event {:?}", ow)),
                     }
                 }
@@ -162,6 +215,9 @@ async fn run_sequence(seq: &[Op]) -> Result<(), String> {
     if m.lane_events != commands {
         return Err(format!("at the end the value lane's lifecycle event had fired {} times for {} commands", m.lane_events, commands));
     }
+    if cmd_lane_events != cmd_lane_commands {
+        return Err(format!("at the end the command lane's lifecycle event had fired {cmd_lane_events} times for {cmd_lane_commands} commands"));
+    }
     task.abort();
     Ok(())
 }
@@ -169,7 +225,7 @@ async fn run_sequence(seq: &[Op]) -> Result<(), String> {
 #[test]
 fn agent_loop_contract() {
     let depth: usize = std::env::var("VERIF_BX_DEPTH").ok().and_then(|s| s.parse().ok()).unwrap_or(4);
-    let ops = [Op::Cmd, Op::Burst, Op::Sync, Op::Drain];
+    let ops = [Op::Cmd, Op::Burst, Op::Sync, Op::Drain, Op::AdHoc, Op::AdHocBurst];
     let rt = tokio::runtime::Builder::new_current_thread().enable_time().build().expect("runtime");
     let mut evaluations = 0usize;
     let mut failure: Option<String> = None;
@@ -200,7 +256,7 @@ fn agent_loop_contract() {
             }
         }
     }
-    println!("BX-SAMPLE depth={depth} inputs {{command, burst of {BURST} commands without reading, sync request, drain}}; e.g. [Burst, Sync, Cmd, Drain]");
+    println!("BX-SAMPLE depth={depth} inputs {{command, burst of {BURST} commands without reading, sync request, drain, command that sends an ad hoc command, burst of {ADHOC_BURST} of those}}; e.g. [Burst, Sync, AdHocBurst, Drain]");
     match failure {
         None => println!("BX-OBL agent_loop::value_lane_settles_syncs_answered_one_lane_event_per_command ok evaluations={evaluations} distinct={evaluations}"),
         Some(w) => {
